@@ -127,7 +127,7 @@ def m_opt_ts_to_tokens(it, n, a):
     return unit()
 
 
-@model(r'^<(proc_macro2::)?(Literal|Ident) as ToTokens>::to_tokens$')
+@model(r'^<&?(proc_macro2::)?(Literal|Ident) as ToTokens>::to_tokens$')
 def m_tok_to_tokens(it, n, a):
     deref(a[1]).toks.append(deref(a[0]))
     return unit()
@@ -1398,6 +1398,55 @@ def m_int_trait_ops(it, n, a):
     if it.truth(z3.UGT(wide, z3.BitVecVal((1 << w) - 1, 2 * w))):
         raise Panic(f'attempt to {op} with overflow')
     return z3.Extract(w - 1, 0, wide)
+
+
+@model(r'^<(u8|u16|u32|usize|u64|i8|i16|i32) as (std::convert::)?Into<(u16|u32|u64|usize|i32|i64|i128|u128)>>::into$|^<(u16|u32|u64|usize|i32|i64|i128|u128) as (std::convert::)?From<(u8|u16|u32|usize|u64|i8|i16|i32)>>::from$')
+def m_int_widen(it, n, a):
+    """lossless widening of an unsigned integer"""
+    m_ = re.search(r'Into<(\w+)>|^<(\w+) as', n)
+    to = m_.group(1) or m_.group(2)
+    w = {'u16': 16, 'u32': 32, 'u64': 64, 'usize': 64, 'i32': 32, 'i64': 64, 'i128': 128, 'u128': 128}[to]
+    src = re.search(r'^<(\w+) as (std::convert::)?Into', n)
+    src = src.group(1) if src else re.search(r'From<(\w+)>', n).group(1)
+    x = deref(a[0])
+    if is_sym(x):
+        ext = z3.SignExt if src.startswith('i') else z3.ZeroExt
+        return ext(w - x.size(), x) if x.size() < w else x
+    return x
+
+
+@model(r'as Iterator>::rposition::<')
+def m_iter_rposition(it, n, a):
+    """index (from the front) of the last element satisfying the predicate"""
+    itr = into_iter(deref(a[0]) if isinstance(deref(a[0]), IterBase) else a[0], it)
+    items = []
+    while True:
+        x = itr.nxt(it)
+        if x is STOP:
+            break
+        items.append(x)
+    for i in range(len(items) - 1, -1, -1):
+        if it.truth(it.call_closure(a[1], [items[i]])):
+            return some(i)
+    return none()
+
+
+@model(r'^<Option<&?(u8|u16|u32|u64|usize)> as PartialOrd(<.*>)?>::(lt|le|gt|ge)$')
+def m_opt_int_cmp(it, n, a):
+    """derived ordering of Option<unsigned>: None < Some(_), Some(x) vs Some(y) by value"""
+    op = re.search(r'::(lt|le|gt|ge)$', n).group(1)
+    sx, vx = opt_fork(it, deref(a[0]))
+    sy, vy = opt_fork(it, deref(a[1]))
+    if sx != sy or not sx:
+        c = (1 if sx else 0) - (1 if sy else 0)
+        return {'lt': c < 0, 'le': c <= 0, 'gt': c > 0, 'ge': c >= 0}[op]
+    x, y = deref(vx), deref(vy)
+    if is_sym(x) or is_sym(y):
+        w = x.size() if is_sym(x) else y.size()
+        xz = x if is_sym(x) else z3.BitVecVal(x, w)
+        yz = y if is_sym(y) else z3.BitVecVal(y, w)
+        return {'lt': z3.ULT, 'le': z3.ULE, 'gt': z3.UGT, 'ge': z3.UGE}[op](xz, yz)
+    return {'lt': x < y, 'le': x <= y, 'gt': x > y, 'ge': x >= y}[op]
 
 
 @model(r'^UniqueArena::<.*>::get$')
